@@ -20,7 +20,7 @@ Val = _Val.create()
 SeqVal = z3.SeqSort(Val)
 SetVal = z3.ArraySort(Val, z3.BoolSort())
 MapVal = z3.ArraySort(Val, Val)
-MapSet = z3.ArraySort(Val, SetVal)
+MapSet = z3.ArraySort(Val, SeqVal)      # dict of sets: a set is the sequence of its elements
 ModelS = z3.DeclareSort('ModelS')
 KeyS = z3.DeclareSort('KeyS')          # abstract sort of sort-key values
 String = z3.StringSort()
@@ -141,3 +141,52 @@ aln_indices = z3.Function('aln_indices', String, Val)              # AlignmentMa
 aln_prefix = z3.Function('aln_prefix', String, Val)
 aln_ok = z3.Function('aln_ok', String, Bool)
 key_fn = z3.Function('key_fn', Val, KeyS)                          # an arbitrary sort key on roles
+
+
+def _denth(t, cache):
+    """map z3's internal seq.nth_i / seq.nth_u back to seq.nth and drop the ite they come in"""
+    k = t.get_id()
+    if k in cache:
+        return cache[k]
+    if z3.is_quantifier(t):
+        body = _denth(t.body(), cache)
+        if body.eq(t.body()):
+            r = t
+        else:
+            vs = [z3.Const(t.var_name(i), t.var_sort(i)) for i in range(t.num_vars())]
+            # bound variables are de Bruijn indices in body(): rebuild through substitute_vars
+            inst = z3.substitute_vars(body, *reversed(vs))
+            r = z3.ForAll(vs, inst) if t.is_forall() else z3.Exists(vs, inst)
+        cache[k] = r
+        return r
+    if not z3.is_app(t) or t.num_args() == 0:
+        cache[k] = t
+        return t
+    args = [_denth(c, cache) for c in t.children()]
+    name = t.decl().name()
+    if name in ('seq.nth_i', 'seq.nth_u'):
+        r = args[0][args[1]]
+    elif t.decl().kind() == z3.Z3_OP_ITE and args[1].eq(args[2]):
+        r = args[1]
+    elif all(a.eq(b) for a, b in zip(args, t.children())):
+        r = t
+    else:
+        r = t.decl()(*args)
+    cache[k] = r
+    return r
+
+
+def simp(t):
+    """z3.simplify with the internal seq.nth_i / seq.nth_u functions (which crash z3 5.1 inside
+    recursive definitions and which cvc5 cannot read) mapped back to seq.nth"""
+    r = z3.simplify(t)
+    if z3.is_true(r) or z3.is_false(r):
+        return r
+    if 'seq.nth_' in r.sexpr():
+        try:
+            r = _denth(r, {})
+        except Exception:
+            return t
+        if 'seq.nth_' in r.sexpr():
+            return t
+    return r
